@@ -112,8 +112,13 @@ pub fn opt_transform(parent_node: &Node, tag_name: &str) -> Result<Option<Transf
 }
 
 pub fn gen_string<T: Display>(tag_name: &str, value: &T) -> String {
-    // The end marker of a CDATA section must not appear inside of it, split the section there
-    let value = value.to_string().replace("]]>", "]]]]><![CDATA[>");
+    // The end marker of a CDATA section must not appear inside of it, split the section there.
+    // A literal carriage return is turned into a line feed by every XML parser,
+    // it survives only as character reference outside of the CDATA section.
+    let value = value
+        .to_string()
+        .replace("]]>", "]]]]><![CDATA[>")
+        .replace('\r', "]]>&#13;<![CDATA[");
     format!("<{tag_name} type=\"String\"><![CDATA[{value}]]></{tag_name}>\n")
 }
 
